@@ -8,6 +8,20 @@ type PropertyDef struct {
 
 // Properties is the registry of E2 checks.
 var Properties = map[string]PropertyDef{
+	"C20": {Cases: C20Cases, Config: func(tier string) Config {
+		c := Config{
+			Functions: []string{"mat.SolveRight", "mat.SolveLeft", "mat.solveAugmented", "mat.SquareMatrix.TryInv/Determinant/Mul/Transpose/IsIdentity", "mat.Lift", "mat.LeftAction", "mat.RightAction", "polynomials.Polynomial.Eval/Add/Mul/Derivative", "polynomials.LiftPolynomial", "ModuleValuedPolynomial.Eval",
+				"lagrange.InterpolateAt/BasisAt/InterpolateInExponentAt", "vandermonde.Interpolate/BuildVandermondeMatrix", "birkhoff.BuildVandermondeMatrix"},
+			Bounds:  map[string]any{"matrices": "concrete, shapes ≤3×3 (quick) / ≤4×4 (thorough), seeded corpus incl. rank-deficient, zero-leading, dependent rows/columns", "right-hand sides, vectors, second factor, polynomial coefficients, evaluation point": "symbolic over GF(q)", "interpolation nodes": "concrete distinct node sets (unsorted, sparse, > 2^63), degree ≤ 3 (quick) / ≤ 5"},
+			Assumes: []string{"matrix entries and interpolation nodes concrete (elimination pivots / Lagrange denominators are inverted: DESIGN §6 barrier 2)"},
+			Outside: []string{"symbolic matrices and nodes", "birkhoff.Interpolate with symbolic values (Cramer determinants divide by symbolic pivots)"},
+		}
+		if tier == "thorough" {
+			c.Moduli = []string{"secp256k1", "bls12381"}
+			c.Cross = "cvc5"
+		}
+		return c
+	}},
 	"C05": {Cases: C05Cases, Config: func(tier string) Config {
 		c := Config{
 			Functions: []string{"feldman.NewScheme", "feldman.Scheme.Deal", "feldman.Scheme.Verify", "feldman.NewLiftedDealerFunc", "feldman.LiftedDealerFunc.ShareOf", "feldman.LiftShare", "feldman.NewVerificationVector", "feldman.VerificationVector.Op", "feldman.Scheme.ReconstructInTheExponent",
